@@ -1,0 +1,22 @@
+//go:build verif
+// +build verif
+
+package masswallet
+
+// Accessors used by the verification harness (/verif, property C16). Add-only; compiled
+// only with the build tag "verif". They expose existing behaviour, they do not change it.
+
+import (
+	"github.com/massnetorg/mass-core/massutil"
+	"github.com/massnetorg/mass-core/wire"
+)
+
+// VerifAmountToTxOut calls the unexported amountToTxOut unchanged.
+func VerifAmountToTxOut(encodedAddr string, amount massutil.Amount) (*wire.TxOut, error) {
+	return amountToTxOut(encodedAddr, amount)
+}
+
+// VerifConstructStakingTxOut calls the unexported constructStakingTxOut unchanged.
+func VerifConstructStakingTxOut(outputs []*StakingTxOut, mtx *wire.MsgTx) error {
+	return constructStakingTxOut(outputs, mtx)
+}
